@@ -123,6 +123,7 @@ type Run struct {
 	stubState map[string]interface{}
 
 	killed      bool
+	aliases     map[*Agg][]aliasRange
 	decReg      map[*smt.Term]decEntry
 	hornerReg   map[*smt.Term]hornerEntry
 	decCache    map[*smt.Term][]*smt.Term
@@ -460,10 +461,30 @@ func (r *Run) concretize(t *smt.Term, why string) uint64 {
 		panic(abort{abInconclusive, "concretize: solver unknown (" + why + ")"})
 	}
 	v := m[tmp.Name]
-	// is there any other value? if not, no fork is needed
-	other, _ := r.check(nil, r.B.Ne(t, smt.Const(t.W, v)))
-	if other != smt.Unsat {
-		ne := append(append([]uint64(nil), excl...), v)
+	// enumerate a batch of further values right away, so that the alternatives can be explored in
+	// parallel instead of being discovered one path after the other
+	found := []uint64{v}
+	more := true
+	for len(found) < 16 {
+		ex := r.B.Eq(tmp, t)
+		for _, f := range found {
+			ex = r.B.And(ex, r.B.Ne(t, smt.Const(t.W, f)))
+		}
+		res2, m2 := r.check([]*smt.Term{tmp}, ex)
+		if res2 != smt.Sat {
+			more = res2 != smt.Unsat
+			break
+		}
+		found = append(found, m2[tmp.Name])
+	}
+	for _, f := range found[1:] {
+		np := make([]Decision, len(r.taken)+1)
+		copy(np, r.taken)
+		np[len(r.taken)] = Decision{Kind: dkConcretize, N: 2, Alt: 0, Val: f, Excl: excl}
+		r.E.push(np)
+	}
+	if more {
+		ne := append(append([]uint64(nil), excl...), found...)
 		np := make([]Decision, len(r.taken)+1)
 		copy(np, r.taken)
 		np[len(r.taken)] = Decision{Kind: dkConcretize, N: 2, Alt: 1, Excl: ne}
